@@ -748,7 +748,8 @@ QUERIES = [{'q': 'repr'}, {'q': 'dump'}, {'q': 'getTimes'},
            {'q': 'save'}, {'q': 'ncattrs'}, {'q': 'getCoords'}]
 
 
-def gen_program(rnd, depth, focus=None, isolation=False, templates=None):
+def gen_program(rnd, depth, focus=None, isolation=False, templates=None,
+                disk=False):
     """Generates a program by dry-running it (the dry run supplies the
     structure needed to choose later arguments)."""
     import warnings
@@ -762,10 +763,23 @@ def gen_program(rnd, depth, focus=None, isolation=False, templates=None):
     share = []      # classes of objects that wrap each other's variables
     tmp = scratch('gen')
     try:
+        if disk:
+            # a disk-backed receiver: the first template written to netCDF and
+            # opened again; most later calls are made on it
+            st = {'act': 'reopen', 'src': 1, 'others': [], 'args': {
+                'format': rnd.choice(['NETCDF4_CLASSIC', 'NETCDF3_CLASSIC',
+                                      'NETCDF4'])}, '_n': -1}
+            try:
+                objs.append(call(objs, st, tmp))
+                steps.append({k: v for k, v in st.items() if k != '_n'})
+            except Exception:
+                disk = False
         for n in range(depth):
             shadows = [Shadow(o) for o in objs]
             src = rnd.randint(1, len(objs))
-            if isolation and rnd.random() < 0.3:
+            if disk and rnd.random() < 0.75:
+                src = 3
+            if isolation and rnd.random() < (0.5 if disk else 0.3):
                 q = dict(rnd.choice(QUERIES))
                 sh = shadows[src - 1]
                 if rnd.random() < 0.35:
@@ -885,6 +899,11 @@ def run_isolation(out, tier):
                 st['args']['p'] = [q for q in st['args']['p']
                                    if rnd.random() < 0.3] + \
                     [{'k': 'invalid', 'v': True}]
+    # disk-backed receivers (netCDF handles keep reader state of their own)
+    nd = 150 if tier == 'quick' else 1500
+    progs += [gen_program(rnd, rnd.choice([2, 3, 4]), isolation=True,
+                          templates=['T1', 'T2', 'T4', 'T5', 'T7'], disk=True)
+              for _ in range(nd)]
     run_programs(out, progs, {'iso'}, 'C05-heap', prop='-')
 
 
